@@ -1,6 +1,8 @@
 import WcModel.Driver.Parse
 import WcModel.Driver.Spec
 import WcModel.Driver.Tidy
+import WcModel.Driver.Lists
+import WcModel.Driver.Glob
 /-
   wcdriver: one request per line on stdin, one reply per line on stdout.
   `<cmd> <field> <field> …`; unknown or malformed requests answer `bad-op`.
@@ -13,8 +15,15 @@ def dispatch (cmd : String) (args : List String) : Option String :=
   | "match" => Driver.handleMatch args
   | "spec" => Driver.handleSpec args
   | "tidy" => Driver.handleTidy args
+  | "pspec" => Driver.handlePSpec args
   | "ping" => some "pong"
-  | _ => none
+  | _ =>
+    match Driver.Lists.handlers.lookup cmd with
+    | some h => h args
+    | none =>
+      match Driver.Glob.handlers.lookup cmd with
+      | some h => h args
+      | none => none
 
 partial def loop (hin hout : IO.FS.Stream) : IO Unit := do
   let line ← hin.getLine
